@@ -9,6 +9,14 @@ import (
 	"kyverif/vh"
 )
 
+func avt(in Inst, p kyber.Point) {
+	if in.VarTime {
+		if a, ok := p.(kyber.AllowsVarTime); ok {
+			a.AllowVarTime(true)
+		}
+	}
+}
+
 func enc(p kyber.Point) string {
 	b, _ := p.MarshalBinary()
 	return vh.Hex(b)
@@ -17,12 +25,23 @@ func enc(p kyber.Point) string {
 // randPoint returns a point reachable from the API: identity, base, multiple of
 // base, picked, sum left in non-normalised internal coordinates.
 func randPoint(r *vh.Rng, in Inst, q *big.Int) (kyber.Point, string) {
+	return pointOfKind(r, in, q, -1)
+}
+
+// pointOfKind builds a point of the given kind (0 identity, 1 base, 2 multiple of
+// the base, 3 picked, 4 sum, 5 negated multiple); kind < 0 draws the kind.
+func pointOfKind(r *vh.Rng, in Inst, q *big.Int, kind int) (kyber.Point, string) {
 	g := in.G
 	var p kyber.Point
 	desc := ""
 	ok := false
 	for !ok {
-		switch r.Intn(6) {
+		k := kind
+		if k < 0 {
+			k = r.Intn(6)
+		}
+		kind = -1 // an unsupported kind falls back to a random one
+		switch k {
 		case 0:
 			desc = "O"
 			pn, _ := vh.Try(func() { p = newPoint(in, g).Null() })
@@ -32,7 +51,7 @@ func randPoint(r *vh.Rng, in Inst, q *big.Int) (kyber.Point, string) {
 			pn, _ := vh.Try(func() { p = newPoint(in, g).Base() })
 			ok = !pn
 		case 2:
-			k := r.EdgeScalar(q)
+			k := edge(r, q)
 			desc = fmt.Sprintf("%s*B", k)
 			pn, _ := vh.Try(func() { p = newPoint(in, g).Mul(MkScalar(g, k), nil) })
 			ok = !pn
@@ -73,10 +92,20 @@ func Laws(r *vh.Rng, in Inst, rep *vh.Report, n int) {
 	}
 	for i := 0; i < n; i++ {
 		pn, msg := vh.Try(func() {
-			P, dp := randPoint(r, in, q)
-			Q, dq := randPoint(r, in, q)
-			R, dr := randPoint(r, in, q)
-			a, b := r.EdgeScalar(q), r.EdgeScalar(q)
+			// the first rounds put the identity and the generator at every operand position
+			kp, kq, kr := -1, -1, -1
+			if i < 6 {
+				kp, kq, kr = []int{0, 1, -1, 0, 1, -1}[i], []int{-1, 0, 0, 1, -1, 1}[i], []int{-1, -1, 0, -1, 0, 1}[i]
+			}
+			P, dp := pointOfKind(r, in, q, kp)
+			Q, dq := pointOfKind(r, in, q, kq)
+			R, dr := pointOfKind(r, in, q, kr)
+			a, b := edge(r, q), edge(r, q)
+			if i < 4 {
+				a = big.NewInt(int64([]int{0, 1, 2, 1}[i]))
+				b = new(big.Int).Sub(q, big.NewInt(int64([]int{1, 1, 2, 0}[i]))) // q-1, q-1, q-2, q
+				b.Mod(b, q)
+			}
 			sa, sb := MkScalar(g, a), MkScalar(g, b)
 			ops := func() map[string]string {
 				return map[string]string{"P": dp, "Q": dq, "R": dr, "a": a.String(), "b": b.String()}
@@ -85,6 +114,22 @@ func Laws(r *vh.Rng, in Inst, rep *vh.Report, n int) {
 			check("identity", np().Add(P, O), P, ops())
 			check("identity-left", np().Add(O, P), P, ops())
 			check("inverse", np().Add(P, np().Neg(P)), O, ops())
+			check("neg-identity", np().Neg(O), O, ops())
+			check("sub-identity", np().Sub(P, O), P, ops())
+			check("neg-neg", np().Neg(np().Neg(P)), P, ops())
+			// the same element in its decoded representation
+			if bb, err := P.MarshalBinary(); err == nil {
+				P2 := np()
+				if P2.UnmarshalBinary(bb) == nil {
+					check("double-two-representations", np().Add(P, P2), np().Mul(g.Scalar().SetInt64(2), P), ops())
+					check("sub-two-representations", np().Sub(P, P2), O, ops())
+				}
+			}
+			// receiver is also an operand
+			check("mul-in-place", func() kyber.Point { c := P.Clone(); avt(in, c); return c.Mul(sa, c) }(), np().Mul(sa, P), ops())
+			check("add-in-place-first", func() kyber.Point { c := P.Clone(); avt(in, c); return c.Add(c, Q) }(), np().Add(P, Q), ops())
+			check("add-in-place-second", func() kyber.Point { c := Q.Clone(); avt(in, c); return c.Add(P, c) }(), np().Add(P, Q), ops())
+			check("sub-in-place-second", func() kyber.Point { c := Q.Clone(); avt(in, c); return c.Sub(P, c) }(), np().Sub(P, Q), ops())
 			check("sub-self", np().Sub(P, P), O, ops())
 			check("commutativity", np().Add(P, Q), np().Add(Q, P), ops())
 			check("associativity", np().Add(np().Add(P, Q), R), np().Add(P, np().Add(Q, R)), ops())
@@ -123,11 +168,21 @@ func PairingLaws(r *vh.Rng, ps PSuite, rep *vh.Report, n int) {
 	}
 	for i := 0; i < n; i++ {
 		pn, msg := vh.Try(func() {
-			P, dp := randPoint(r, in1, q)
-			P2, dp2 := randPoint(r, in1, q)
-			Q, dq := randPoint(r, in2, q)
-			Q2, dq2 := randPoint(r, in2, q)
-			a, b := r.EdgeScalar(q), r.EdgeScalar(q)
+			kp, kp2, kq, kq2 := -1, -1, -1, -1
+			if i < 6 { // identity at every position, alone and in pairs
+				kp, kp2, kq, kq2 = []int{0, -1, -1, -1, 0, -1}[i], []int{-1, 0, -1, -1, -1, 0}[i], []int{-1, -1, 0, -1, -1, 0}[i], []int{-1, -1, -1, 0, 0, -1}[i]
+			}
+			P, dp := pointOfKind(r, in1, q, kp)
+			P2, dp2 := pointOfKind(r, in1, q, kp2)
+			Q, dq := pointOfKind(r, in2, q, kq)
+			Q2, dq2 := pointOfKind(r, in2, q, kq2)
+			a, b := edge(r, q), edge(r, q)
+			if i%5 == 1 {
+				a = big.NewInt(0)
+			}
+			if i%5 == 3 {
+				b = big.NewInt(0)
+			}
 			sa, sb := MkScalar(s.G1(), a), MkScalar(s.G1(), b)
 			ops := func() map[string]string {
 				return map[string]string{"P": dp, "P'": dp2, "Q": dq, "Q'": dq2, "a": a.String(), "b": b.String()}
@@ -140,7 +195,9 @@ func PairingLaws(r *vh.Rng, ps PSuite, rep *vh.Report, n int) {
 			check("identity-left", s.Pair(s.G1().Point().Null(), Q), gt.Point().Null(), ops())
 			check("identity-right", s.Pair(P, s.G2().Point().Null()), gt.Point().Null(), ops())
 			// ValidatePairing(p1,p2,i1,i2) <=> Pair(p1,p2) == Pair(i1,i2)
-			for _, quad := range [][4]kyber.Point{{aP, bQ, s.G1().Point().Mul(s.G1().Scalar().Mul(sa, sb), P), Q}, {P, Q, P2, Q2}, {aP, Q, P, s.G2().Point().Mul(sa, Q)}, {P, Q, P, Q2}} {
+			O1, O2 := s.G1().Point().Null(), s.G2().Point().Null()
+			for _, quad := range [][4]kyber.Point{{aP, bQ, s.G1().Point().Mul(s.G1().Scalar().Mul(sa, sb), P), Q}, {P, Q, P2, Q2}, {aP, Q, P, s.G2().Point().Mul(sa, Q)}, {P, Q, P, Q2},
+				{O1, Q, P, O2}, {P, O2, O1, Q2}, {P, O2, P2, O2}, {O1, Q, O1, Q2}, {P, s.G2().Point().Sub(Q, Q), P2, O2}, {s.G1().Point().Sub(P, P), Q, P2, s.G2().Point().Mul(s.G2().Scalar().Zero(), Q2)}} {
 				want := s.Pair(quad[0], quad[1]).Equal(s.Pair(quad[2], quad[3]))
 				got := s.ValidatePairing(quad[0], quad[1], quad[2], quad[3])
 				rep.Dist(fmt.Sprintf("plaw:validate=%v", want))
